@@ -52,6 +52,10 @@ type AV struct {
 	// Blowup: the value is (derived from) 1<<n with a stream-controlled, unchecked n that can reach 31
 	// or more: sizes built from it are exponential in a header byte.
 	Blowup bool
+	// Trip: the value is a pure iteration counter of a loop whose exit test depends on a
+	// stream-controlled value (length++ in `for n > 0 { n >>= 1; length++ }`): it is controlled by
+	// the stream through the trip count although no data flows into it.
+	Trip bool
 }
 
 const maxPieces = 4
@@ -132,6 +136,9 @@ func (a AV) String() string {
 	if a.Blowup {
 		fl = append(fl, "2^stream-byte")
 	}
+	if a.Trip {
+		fl = append(fl, "trip-count")
+	}
 	if len(fl) > 0 {
 		s += " (" + strings.Join(fl, ",") + ")"
 	}
@@ -198,12 +205,12 @@ func Join(a, b AV) AV {
 		return a
 	}
 	ps, hulled := normalize(append(append([]Itv{}, a.P...), b.P...))
-	return AV{P: ps, Taint: a.Taint || b.Taint, Exact: a.Exact && b.Exact && !hulled, SanLo: a.SanLo && b.SanLo, SanHi: a.SanHi && b.SanHi, Bits: a.Bits | b.Bits, ZeroDef: a.ZeroDef || b.ZeroDef, Raw: a.Raw && b.Raw, Blowup: a.Blowup || b.Blowup}
+	return AV{P: ps, Taint: a.Taint || b.Taint, Exact: a.Exact && b.Exact && !hulled, SanLo: a.SanLo && b.SanLo, SanHi: a.SanHi && b.SanHi, Bits: a.Bits | b.Bits, ZeroDef: a.ZeroDef || b.ZeroDef, Raw: a.Raw && b.Raw, Blowup: a.Blowup || b.Blowup, Trip: a.Trip || b.Trip}
 }
 
 // Equal compares ranges and flags.
 func Equal(a, b AV) bool {
-	if len(a.P) != len(b.P) || a.Taint != b.Taint || a.Exact != b.Exact || a.SanLo != b.SanLo || a.SanHi != b.SanHi || a.Bits != b.Bits || a.ZeroDef != b.ZeroDef || a.Raw != b.Raw || a.Blowup != b.Blowup {
+	if len(a.P) != len(b.P) || a.Taint != b.Taint || a.Exact != b.Exact || a.SanLo != b.SanLo || a.SanHi != b.SanHi || a.Bits != b.Bits || a.ZeroDef != b.ZeroDef || a.Raw != b.Raw || a.Blowup != b.Blowup || a.Trip != b.Trip {
 		return false
 	}
 	for i := range a.P {
@@ -644,7 +651,7 @@ func Shl(a, n AV) AV {
 		return Bottom()
 	}
 	r := AV{Taint: a.Taint || n.Taint, Bits: ^uint64(0), Blowup: a.Blowup}
-	if n.Taint && n.Exact && n.Hi() >= 31 && a.Hi() >= 1 {
+	if n.Taint && (n.Exact || n.Trip) && n.Hi() >= 31 && a.Hi() >= 1 {
 		r.Blowup = true
 	}
 	if n.Lo() < 0 || n.Hi() > 62 {
